@@ -9,7 +9,8 @@ from ..prog import SimError
 A = real.A
 
 KINDS = ["future_ok", "future_raise", "const", "errorfuture", "task_ok", "task_raise", "task_item",
-         "simbatch", "simitem", "debugitem", "debugbatch", "susp_ok", "susp_raise", "susp_yield"]
+         "simbatch", "simitem", "debugitem", "debugbatch", "susp_ok", "susp_raise", "susp_yield",
+         "selfcancel_batch", "selfcancel_item"]
 OPS = ["value", "error", "call", "is_computed", "set_value", "set_error", "reset", "sub_ok", "sub_raise"]
 
 
@@ -51,6 +52,9 @@ class Ref(object):
             self.val, self.err = "0:k", None
         elif k == "debugitem":
             self.val, self.err = "dbg", None
+        elif k in ("selfcancel_batch", "selfcancel_item"):
+            # the flush body cancels its own batch and returns normally: one outcome, the error
+            self.val, self.err = None, "E:selfcancel"
         elif k == "susp_ok":
             self.val, self.err = "0:k", None
         elif k == "susp_raise":
@@ -130,6 +134,23 @@ class _World(object):
             self.f = A.batching.DebugBatchItem("c10d", "dbg")
         elif kind == "debugbatch":
             self.f = A.batching.DebugBatchItem("c10d", "dbg").batch
+        elif kind.startswith("selfcancel"):
+            W = self
+
+            class SCBatch(A.BatchBase):
+                def _try_switch_active_batch(self):
+                    pass
+
+                def _flush(self):
+                    runs[0] += 1
+                    self.cancel(SimError("E:selfcancel"))
+
+            class SCItem(A.BatchItemBase):
+                pass
+            b = SCBatch()
+            it = SCItem(b)
+            self.keep = (b, it)
+            self.f = b if kind == "selfcancel_batch" else it
         elif kind.startswith("susp_"):
             bad = kind[5:]
 
